@@ -434,7 +434,7 @@ func (g *DocGen) litFor(dt string) *ALit {
 		if strings.HasPrefix(dt, xsdNS) && r.Chance(65) {
 			// values that look like what the datatype suggests
 			s = r.Pick([]string{"0", "1", "-1", "42", "127", "255", "-128", "32767", "65535", "2147483647", "-2147483648", "4294967295", "9223372036854775807", "18446744073709551615",
-				"3.14", "1e3", "2024-02-29", "12:30:00", "P1D", "2024", "true", "aGVsbG8=", "http://example.com/x", " 7 ", "007", "+5", "1.0"})
+				"3.14", "1234567890123456.78", "0.12345678901234567890", "99999999999999999999.5", "1e3", "2024-02-29", "12:30:00", "P1D", "2024", "true", "aGVsbG8=", "http://example.com/x", " 7 ", "007", "+5", "1.0"})
 		}
 		return &ALit{DT: dt, Kind: "str", Canon: s, JSON: s}
 	}
